@@ -146,6 +146,7 @@ type vEng struct {
 	blocking bool
 	wfr      bool
 	q        readableQueue[vReq]
+	api      Queue[vReq] // the same queue behind the asyncQueue wrapper (no consumers of its own): Offer / Size / Capacity / Shutdown go through it
 	mq       *memoryQueue[vReq]
 	pq       *persistentQueue[vReq]
 	client   storage.Client
@@ -215,6 +216,7 @@ func vNewEng(out *vOut, kind int, capacity int64, blocking, wfr, reqSizer bool) 
 		e.q, e.mu, e.cnd = e.pq, &e.pq.mu, e.pq.hasMoreSpace
 		e.hme = e.pq.hasMoreElements
 	}
+	e.api = newAsyncQueue[vReq](e.q, 0, nil)
 	return e
 }
 
@@ -517,6 +519,9 @@ func (e *vEng) consLabels() {
 			if !e.stopped {
 				e.oracle("read-closed-while-running", fmt.Sprintf("consumer %d", c.k))
 			}
+			if e.kind == 0 && e.queued() > 0 {
+				e.oracle("accepted-request-never-handed", fmt.Sprintf("kind=mem consumer %d got false with %d accepted request(s) still queued", c.k, e.queued()))
+			}
 		}
 	}
 	live := e.cons[:0]
@@ -725,11 +730,11 @@ func (e *vEng) unstable(where string) {
 // ---- the property's direct oracle at a stable point -----------------------------------------------
 func (e *vEng) stableOracle() {
 	size, _, _ := e.snap()
-	if api := e.q.Size(); api != size {
+	if api := e.api.Size(); api != size {
 		e.oracle("size-api-differs", fmt.Sprintf("Size()=%d field=%d", api, size))
 	}
-	if e.q.Capacity() != e.cap {
-		e.oracle("capacity-differs", fmt.Sprintf("Capacity()=%d configured=%d", e.q.Capacity(), e.cap))
+	if e.api.Capacity() != e.cap {
+		e.oracle("capacity-differs", fmt.Sprintf("Capacity()=%d configured=%d", e.api.Capacity(), e.cap))
 	}
 	var sum int64
 	unfinished := 0
@@ -843,7 +848,7 @@ func (e *vEng) opOffer(p *vProd) {
 	}
 	// (a failing storage write is marked in the request itself, see vFaultClient.Batch: the fault must hit this
 	// request only, not a producer that this Offer's Signal wakes)
-	go func() { p.res <- e.q.Offer(p.ctx, vReq{id: p.id, sz: p.sz, bad: p.fault == 1, badWrite: p.fault == 2}) }()
+	go func() { p.res <- e.api.Offer(p.ctx, vReq{id: p.id, sz: p.sz, bad: p.fault == 1, badWrite: p.fault == 2}) }()
 	stableOffer := e.settle(2 * time.Second)
 	if !stableOffer {
 		e.lab(tag, int64(p.id), p.sz, -1)
@@ -953,8 +958,30 @@ func (e *vEng) opOffer(p *vProd) {
 	e.stableOracle()
 }
 
+// the outcome a wait-for-result producer got is the consumer's error (possibly wrapped: af774a6ec wraps errors of an
+// element that WAS enqueued in acceptedError)
+func vSameErr(got, want error) bool {
+	if want == nil || got == nil {
+		return got == nil && want == nil
+	}
+	return errors.Is(got, want)
+}
+
+// acceptedError is the code-level witness of the model's distinction between "refused" and "accepted, failed
+// later": an error returned for an enqueued request carries the wrapper, an error of a refused one does not
+func (e *vEng) acceptedWrapper(p *vProd) {
+	if p.ret == nil || !p.returned {
+		return
+	}
+	var ae acceptedError
+	if is := errors.As(p.ret, &ae); is != p.enq {
+		e.oracle("accepted-error-wrapper-mismatch", fmt.Sprintf("p%d enqueued=%v error=%v carries acceptedError=%v", p.id, p.enq, p.ret, is))
+	}
+}
+
 // a refused Offer changes nothing: same reported size, same queue contents, and the request is never handed over
 func (e *vEng) refusedUnchanged(p *vProd, res, sizeBefore int64, queuedBefore int) {
+	e.acceptedWrapper(p)
 	size, _, _ := e.snap()
 	if size != sizeBefore || len(e.itemIDs()) != queuedBefore || p.enq {
 		e.oracle("refused-offer-changed-the-queue", fmt.Sprintf("kind=%s class=%d sz=%d size %d->%d queued %d->%d enqueued=%v",
@@ -1067,6 +1094,10 @@ func (e *vEng) opRead() {
 		if !e.stopped {
 			e.oracle("read-closed-while-running", "")
 		}
+		if e.kind == 0 && e.queued() > 0 {
+			// the in-memory queue hands over what it holds also after Shutdown (nothing else could ever deliver it)
+			e.oracle("accepted-request-never-handed", fmt.Sprintf("kind=mem Read returned false with %d accepted request(s) still queued (stopped=%v)", e.queued(), e.stopped))
+		}
 		return
 	}
 	e.noteHandoff(x.r.id, x.done)
@@ -1141,9 +1172,10 @@ func (e *vEng) opDone(id int, cls int64) {
 	// (which may Get that very object): the two commute otherwise
 	if wasWaitingResult {
 		e.lab(8, int64(id), 0, 100+cls)
-		if p.ret != err {
+		if !vSameErr(p.ret, err) {
 			e.oracle("wait-for-result-wrong-outcome", fmt.Sprintf("p%d got %v want %v", id, p.ret, err))
 		}
+		e.acceptedWrapper(p)
 	}
 	e.wakeLabels(n0, e.newlyEnq(enq0))
 	e.observe()
@@ -1182,6 +1214,7 @@ func (e *vEng) opCancel(p *vProd) {
 		} else {
 			e.oracle("cancelled-awaiter-wrong-result", fmt.Sprintf("p%d returned %v", p.id, p.ret))
 		}
+		e.acceptedWrapper(p)
 	}
 	e.observe()
 	e.stableOracle()
@@ -1192,7 +1225,7 @@ func (e *vEng) opShutdown() {
 		return
 	}
 	nPark := e.liveCons()
-	_ = e.q.Shutdown(context.Background())
+	_ = e.api.Shutdown(context.Background())
 	e.stopped = true
 	if !e.settle(2 * time.Second) {
 		e.lab(10, 0, 0, 0)
@@ -1394,12 +1427,12 @@ func TestVerifC02(t *testing.T) {
 	rng := vNewRand(2)
 
 	// (1) sequential scripts on the non-blocking configurations
-	n1 := vBudget(900, 15)
+	n1 := vBudget(800, 15)
 	for c := 0; c < n1 && vDeadCount < 40; c++ {
 		vScript(out, rng, c%2, false, false)
 	}
 	// (2) free-running blocking / wait-for-result scripts
-	n2 := vBudget(500, 15)
+	n2 := vBudget(440, 15)
 	for c := 0; c < n2 && vDeadCount < 40; c++ {
 		switch c % 5 {
 		case 0:
@@ -1433,6 +1466,11 @@ func TestVerifC02(t *testing.T) {
 	n6 := vBudget(60, 10)
 	for c := 0; c < n6 && vDeadCount < 40; c++ {
 		vFaultBlocked(out, rng, c)
+	}
+	// (8) the real asyncQueue with its own consumer goroutines (async_queue.go), free running
+	n8 := vBudget(40, 10)
+	for c := 0; c < n8 && vDeadCount < 40; c++ {
+		vAsync(out, rng, c)
 	}
 	// (7) parked producers whose request cannot be stored (finding C02-FAULTY-WAITER-STEALS-WAKEUP)
 	n7 := vBudget(40, 10)
@@ -1471,7 +1509,7 @@ func vForcedEnq(out *vOut, rng *vRand, c int) {
 		p := e.newProd(i, 1)
 		p.started = true
 		ps = append(ps, p)
-		go func() { p.res <- e.q.Offer(p.ctx, vReq{id: p.id, sz: p.sz}) }()
+		go func() { p.res <- e.api.Offer(p.ctx, vReq{id: p.id, sz: p.sz}) }()
 		want := int32(i + 1)
 		for dl := time.Now().Add(5 * time.Second); vMutexWaiters(e.mu) < want && time.Now().Before(dl); {
 			time.Sleep(50 * time.Microsecond)
@@ -1525,6 +1563,83 @@ func vForcedEnq(out *vOut, rng *vRand, c int) {
 	}
 	e.finish()
 	e.emit()
+}
+
+// the persistent queue of the harness is already initialised on the mock storage: its own Start would look the
+// storage extension up in the host
+type vNoStart struct{ readableQueue[vReq] }
+
+func (vNoStart) Start(context.Context, component.Host) error { return nil }
+
+// ---- the real asyncQueue: Start's consumer loop, Offer, Shutdown (free-running; direct oracle only) ----------
+func vAsync(out *vOut, rng *vRand, c int) {
+	kind := c % 2
+	capacity := int64(3 + rng.Intn(6))
+	e := vNewEng(out, kind, capacity, true, false, false)
+	var mu sync.Mutex
+	got := map[int]int{}
+	var order []int
+	nCons := 1 + rng.Intn(3)
+	aq := newAsyncQueue[vReq](vNoStart{e.q}, nCons, func(_ context.Context, r vReq, d Done) {
+		mu.Lock()
+		got[r.id]++
+		order = append(order, r.id)
+		mu.Unlock()
+		d.OnDone(nil)
+	})
+	if err := aq.Start(context.Background(), componenttest.NewNopHost()); err != nil {
+		out.Oracle("async-start-failed", "()", err.Error())
+		return
+	}
+	n := 5 + rng.Intn(20)
+	accepted := 0
+	for i := 0; i < n; i++ {
+		ctx, cancel := context.WithTimeout(context.Background(), 5*time.Second)
+		err := aq.Offer(ctx, vReq{id: i, sz: 1 + int64(rng.Intn(int(capacity)))})
+		cancel()
+		if err == nil {
+			accepted++
+		} else {
+			out.Oracle("async-offer-refused-with-space-coming", "()", fmt.Sprintf("kind=%s consumers=%d offer %d: %v", e.kindName(), nCons, i, err))
+		}
+	}
+	dl := time.Now().Add(5 * time.Second)
+	for time.Now().Before(dl) {
+		mu.Lock()
+		k := len(order)
+		mu.Unlock()
+		if k >= accepted && aq.Size() == 0 {
+			break
+		}
+		time.Sleep(200 * time.Microsecond)
+	}
+	fin := make(chan error, 1)
+	go func() { fin <- aq.Shutdown(context.Background()) }()
+	select {
+	case <-fin:
+	case <-time.After(5 * time.Second):
+		out.Oracle("async-shutdown-does-not-return", "()", fmt.Sprintf("kind=%s consumers=%d", e.kindName(), nCons))
+		return
+	}
+	mu.Lock()
+	defer mu.Unlock()
+	bad := len(order) != accepted
+	for _, k := range got {
+		if k != 1 {
+			bad = true
+		}
+	}
+	if nCons == 1 {
+		for i := 1; i < len(order); i++ {
+			if order[i] < order[i-1] {
+				bad = true
+			}
+		}
+	}
+	if bad || aq.Size() != 0 {
+		out.Oracle("async-consume-not-exactly-once-fifo", "()", fmt.Sprintf("kind=%s consumers=%d accepted=%d consumed=%v size=%d", e.kindName(), nCons, accepted, order, aq.Size()))
+	}
+	out.Stat(fmt.Sprintf("async_cases_consumers_%d", nCons), 1)
 }
 
 // ---- persistent queue, block_on_overflow: parked producers whose request cannot be stored -------------------
